@@ -408,6 +408,11 @@ func (fv *FuncVC) call(x *ssa.Call) {
 		callee := c.StaticCallee()
 		key = fv.W.FuncKey(callee)
 		fc = fv.W.CS.Funcs[key]
+		if b := fv.W.CS.Body[key]; b != nil && key == fv.Key {
+			// a recursive call inside the function's own body proof: the induction hypothesis is the
+			// body contract, not the assumed caller-side contract
+			fc = b
+		}
 	default:
 		// dynamic call through a function value: contract keyed by the struct field it was loaded from
 		if u, ok := c.Value.(*ssa.UnOp); ok && u.Op == token.MUL {
@@ -776,6 +781,9 @@ func (fv *FuncVC) callModifies(ci ssa.CallInstruction) (heaps []string, ghosts [
 		ghosts = append(ghosts, fv.afterGhosts("iface:"+mangle(shortTypeNameStd(c.Value.Type()))+"."+c.Method.Name())...)
 	case c.StaticCallee() != nil:
 		fc = fv.W.CS.Funcs[fv.W.FuncKey(c.StaticCallee())]
+		if b := fv.W.CS.Body[fv.W.FuncKey(c.StaticCallee())]; b != nil && fv.W.FuncKey(c.StaticCallee()) == fv.Key {
+			fc = b
+		}
 		ghosts = append(ghosts, fv.afterGhosts(fv.W.FuncKey(c.StaticCallee()))...)
 	default:
 		if u, ok := c.Value.(*ssa.UnOp); ok && u.Op == token.MUL {
